@@ -65,7 +65,7 @@ def run(tier, seed, rep):
                     continue
                 evs.append(comb_event(pp, f"c{i}", A, kind, size, "method" if i % 3 else "module"))
                 i += 1
-    res = core.validate_traces("Trace_Annotation", evs, "C19", per_shard_max=400)
+    res = core.validate_traces("Trace_Annotation", evs, "C19", per_shard_max=400, min_per_shard=30)
     rep.add_trace("expansions", evs, res,
                   sig=lambda e: (e["kind"], len(e["A"]["seq"]), e["size"], e["via"],
                                  tuple(sorted(k for k in ("labile", "static", "isotope", "unknown", "nterm", "cterm",
